@@ -404,14 +404,14 @@ fn run(ctx: &mut Ctx) {
         }
     }
     // several descriptors at every valid stride up to 128 and at larger ones; large counts
-    ctx.bound("large", "2 and 3 descriptors at every stride 40,48,..,128 and 136, 248, 256, 264, 4096; 255, 256, 257 descriptors of 40 bytes; 1366 descriptors of 48 bytes (map longer than 64 KiB); 65537 bytes of map with stride 40 (not divisible)");
-    let big = Arena::new(40);
+    ctx.bound("large", "2 and 3 descriptors at every stride 40,48,..,128 and 136, 248, 256, 264, 4096; 255, 256, 257 descriptors of 40 bytes; 1366 descriptors of 48 bytes (map longer than 64 KiB); 4095..4097 and 65535..65537 descriptors of 40 bytes, 65537 of 48 bytes; 3 descriptors of 64 KiB, 2 of 1 MiB; 65537 bytes of map with stride 40 (not divisible)");
+    let big = Arena::new(800);
     let mut large: Vec<(u32, usize)> = vec![];
     for d in (40u32..=128).step_by(8).chain([136, 248, 256, 264, 4096]) {
         large.push((d, 2 * d as usize));
         large.push((d, 3 * d as usize));
     }
-    large.extend([(40, 255 * 40), (40, 256 * 40), (40, 257 * 40), (48, 1366 * 48), (40, 65537)]);
+    large.extend([(40, 255 * 40), (40, 256 * 40), (40, 257 * 40), (48, 1366 * 48), (40, 65537), (40, 4095 * 40), (40, 4096 * 40), (40, 4097 * 40), (40, 65535 * 40), (40, 65536 * 40), (40, 65537 * 40), (48, 65537 * 48), (65536, 65536 * 3), (0x10_0000, 0x20_0000)]);
     for (d, l) in large {
         let img = image(d, 1, l);
         let describe = || J::obj().set("body", "canonical-large").set("desc_size", d).set("desc_version", 1).set("map_len", l);
